@@ -454,6 +454,7 @@ impl ParsedValue {
         values: &LocalesOrNamespaces,
         top_locale: &Key,
         default_locale: &Key,
+        extensions: &BTreeMap<Key, Key>,
         key_path: &KeyPath,
     ) -> Result<()> {
         let ForeignKey::NotSet(foreign_key_path, args) = &*foreign_key else {
@@ -461,39 +462,59 @@ impl ParsedValue {
             return Ok(());
         };
 
-        let Some(value) = values.get_value_at(top_locale, foreign_key_path) else {
-            return Err(Error::MissingForeignKey {
-                foreign_key: foreign_key_path.to_owned(),
-                locale: top_locale.clone(),
-                key_path: key_path.to_owned(),
+        // a `null` target takes the value of the first locale of the `inherits` chain that defines it,
+        // the value of the default locale when the chain ends or loops.
+        let mut top_locale = top_locale;
+        let mut visited = Vec::new();
+        let value = loop {
+            match values.get_value_at(top_locale, foreign_key_path) {
+                Some(ParsedValue::Default) => {
+                    // this check is normally done in a later step for optimisations (Locale::make_builder_keys),
+                    // but we still need to do it here to avoid infinite loop
+                    // this case happen if a foreign key point to an explicit default in the default locale
+                    // pretty niche, but would cause a rustc stack overflow if not done.
+                    if top_locale == default_locale {
+                        return Err(Error::ExplicitDefaultInDefault(key_path.to_owned()).into());
+                    }
+                }
+                Some(value) => break value,
+                // a locale of the chain that lacks the key does not define it either.
+                None if !visited.is_empty() && top_locale != default_locale => {}
+                None => {
+                    return Err(Error::MissingForeignKey {
+                        foreign_key: foreign_key_path.to_owned(),
+                        locale: top_locale.clone(),
+                        key_path: key_path.to_owned(),
+                    }
+                    .into());
+                }
             }
-            .into());
+
+            visited.push(top_locale);
+            top_locale = match extensions.get(top_locale) {
+                Some(inherited) if !visited.contains(&inherited) => inherited,
+                _ => default_locale,
+            };
         };
 
-        if matches!(value, ParsedValue::Default) {
-            // this check is normally done in a later step for optimisations (Locale::make_builder_keys),
-            // but we still need to do it here to avoid infinite loop
-            // this case happen if a foreign key point to an explicit default in the default locale
-            // pretty niche, but would cause a rustc stack overflow if not done.
-            if top_locale == default_locale {
-                return Err(Error::ExplicitDefaultInDefault(key_path.to_owned()).into());
-            } else {
-                return Self::resolve_foreign_key_inner(
-                    foreign_key,
-                    values,
-                    default_locale,
-                    default_locale,
-                    key_path,
-                );
-            }
-        }
-
         // possibility that the foreign key must be resolved too
-        value.resolve_foreign_key(values, top_locale, default_locale, foreign_key_path)?;
+        value.resolve_foreign_key(
+            values,
+            top_locale,
+            default_locale,
+            extensions,
+            foreign_key_path,
+        )?;
 
         // possibility that args must resolve too
         for arg in args.values() {
-            arg.resolve_foreign_key(values, top_locale, default_locale, foreign_key_path)?;
+            arg.resolve_foreign_key(
+                values,
+                top_locale,
+                default_locale,
+                extensions,
+                foreign_key_path,
+            )?;
         }
 
         let value = value.populate(args, foreign_key_path, top_locale, key_path)?;
@@ -508,20 +529,27 @@ impl ParsedValue {
         values: &LocalesOrNamespaces,
         top_locale: &Key,
         default_locale: &Key,
+        extensions: &BTreeMap<Key, Key>,
         path: &KeyPath,
     ) -> Result<()> {
         match self {
             ParsedValue::Variable { .. } | ParsedValue::Literal(_) | ParsedValue::Default => Ok(()),
             ParsedValue::Subkeys(_) => Ok(()), // unreachable ?
             ParsedValue::Ranges(inner) => {
-                inner.resolve_foreign_keys(values, top_locale, default_locale, path)
+                inner.resolve_foreign_keys(values, top_locale, default_locale, extensions, path)
             }
             ParsedValue::Component { inner, .. } => {
-                inner.resolve_foreign_key(values, top_locale, default_locale, path)
+                inner.resolve_foreign_key(values, top_locale, default_locale, extensions, path)
             }
             ParsedValue::Bloc(bloc) => {
                 for value in bloc {
-                    value.resolve_foreign_key(values, top_locale, default_locale, path)?;
+                    value.resolve_foreign_key(
+                        values,
+                        top_locale,
+                        default_locale,
+                        extensions,
+                        path,
+                    )?;
                 }
                 Ok(())
             }
@@ -539,14 +567,21 @@ impl ParsedValue {
                     values,
                     top_locale,
                     default_locale,
+                    extensions,
                     path,
                 )
             }
             ParsedValue::Plurals(Plurals { forms, other, .. }) => {
                 for value in forms.values() {
-                    value.resolve_foreign_key(values, top_locale, default_locale, path)?;
+                    value.resolve_foreign_key(
+                        values,
+                        top_locale,
+                        default_locale,
+                        extensions,
+                        path,
+                    )?;
                 }
-                other.resolve_foreign_key(values, top_locale, default_locale, path)
+                other.resolve_foreign_key(values, top_locale, default_locale, extensions, path)
             }
         }
     }
